@@ -213,6 +213,12 @@ def gen_window(rnd, spec):
             ops += [["adopt", p["id"]], ["sleep", rnd.choice([0.0, 0.01, 0.03])]]
             expected_window.append(p["id"])
         script.append(["thread", ops])
+    inject = common.inject_conf(rnd, 0.7)
+    if rnd.random() < 0.4 or spec.get("case_index") == 0:
+        # somebody keeps adopting until the run call has ended, and the last statements of the closing are stretched
+        script.append(["thread", [["wait_event", "cancelled", "slow", 5.0], ["adopt_stream", rnd.choice(common.FLAVOURS), rnd.choice([0.0005, 0.002])]]])
+        inject = inject or {"seed": rnd.randint(0, 10**6), "p_yield": 0.2, "p_sleep": 0.0}
+        inject["hot"] = {"MetaRunner._manage_runners": 0.05, "MetaRunner._aclose_runners": 0.05}
     trigger = rnd.choice(["shutdown", "shutdown", "fail"])
     if trigger == "shutdown":
         script.append(["shutdown"])
@@ -221,7 +227,7 @@ def gen_window(rnd, spec):
         script.append(["adopt", "trigger"])
     script.append(["expect_end", 8.0])
     gen["script"] = script
-    return {"watchdog": 40, "inject": common.inject_conf(rnd, 0.7), "generations": [gen], "meta": {"kind": "window", "window": expected_window}}
+    return {"watchdog": 40, "inject": inject, "generations": [gen], "meta": {"kind": "window", "window": expected_window}}
 
 
 def gen_idle(rnd, spec):
@@ -429,12 +435,20 @@ def judge(case, run, result):
             if call["seq"] < trigger["seq"]:
                 continue
             outcome = [e for e in run.events if e.get("op") == "adopt" and e.get("pid") == call["pid"] and e["kind"] in ("return", "raised") and e["seq"] > call["seq"]]
+            ended = run.first("accept-ended", gen=G)
+            if outcome and outcome[0]["seq"] > slow_done["seq"] and ended is not None and call["seq"] < ended["seq"]:
+                # in the last moments of the closing, after the cleanups: still no reason for adopt to raise
+                result.count("adopts_in_the_last_moments_of_the_closing")
+                if outcome[0]["kind"] == "raised":
+                    problems.append(("adopt(%s) by %s raised %s(%s) in the last moments of the runtime's closing (after the payloads' cleanup, before the run call ended)"
+                                     % (call["pid"], call["by"], outcome[0]["exc"], outcome[0]["msg"]), None))
+                continue
             if not outcome or outcome[0]["seq"] > slow_done["seq"]:
                 continue
             in_window += 1
             if outcome[0]["kind"] == "raised":
                 problems.append(("adopt(%s, flavour=%s) by %s raised %s(%s) while the runtime was still finishing its payloads' cleanup"
-                                 % (call["pid"], specs[call["pid"]]["flavour"], call["by"], outcome[0]["exc"], outcome[0]["msg"]), None))
+                                 % (call["pid"], specs.get(call["pid"], {}).get("flavour", "?"), call["by"], outcome[0]["exc"], outcome[0]["msg"]), None))
             result.count("adopts_in_shutdown_window_%s" % ("inside" if call["by"].startswith("hand") else "outside"))
         for pid in case["meta"]["window"]:
             starts = run.of("start", gen=G, pid=pid)
@@ -503,7 +517,7 @@ def finish(total, tier):
             "gated_adopts_returned_before_payload_released", "scenarios_with_idle_asyncio_loop", "service_storms", "scenarios_with_bursts", "scenarios_with_replaced_services",
             "window_adopts_judged", "adopts_in_shutdown_window_inside", "adopts_in_shutdown_window_outside",
             "scenarios_with_concurrent_registration_before_start", "forced_redecorated_schedules_checked",
-            "scenarios_in_the_second_run_of_the_same_runner", "plain_callables_called_inside_their_runner"]
+            "scenarios_in_the_second_run_of_the_same_runner", "adopts_in_the_last_moments_of_the_closing", "plain_callables_called_inside_their_runner"]
     need += ["services_of_shape_%s_started_exactly_once" % k for k in ("plain", "subclass", "falsy", "redecorated", "valued")]
     need += ["payloads_adopted_repeatedly_before_start"]
     for name in need:
